@@ -42,8 +42,17 @@ pub enum Un {
 #[derive(Clone, Debug, Serialize, Deserialize)]
 pub enum Op {
     New { dst: usize, val: Vec<u64> },
-    Zero { dst: usize },
-    One { dst: usize },
+    Zero {
+        dst: usize,
+        /// which of the equivalent constructors (associated constant / function, Default, num_traits::Zero, ConstZero, Monty trait)
+        #[serde(default)]
+        form: u8,
+    },
+    One {
+        dst: usize,
+        #[serde(default)]
+        form: u8,
+    },
     Bin { kind: Bin, dst: usize, a: usize, b: usize, form: u8 },
     Un { kind: Un, dst: usize, a: usize, form: u8 },
     /// long-lived multiplier object: dst = dst * b
@@ -131,6 +140,13 @@ pub trait Rep: Clone {
     fn new(c: &Self::Ctx, x: &[u64]) -> Self;
     fn zero(c: &Self::Ctx) -> Self;
     fn one(c: &Self::Ctx) -> Self;
+    fn zero_form(c: &Self::Ctx, _form: u8) -> Self {
+        Self::zero(c)
+    }
+    fn one_form(c: &Self::Ctx, _form: u8) -> Self {
+        Self::one(c)
+    }
+
     fn bin(kind: Bin, a: &Self, b: &Self, form: u8) -> Self;
     fn un(kind: Un, a: &Self, form: u8) -> Self;
     fn select(a: &Self, b: &Self, choice: bool, form: u8) -> Self;
@@ -263,6 +279,14 @@ where
     fn one(_: &()) -> Self {
         CRep(ConstMontyForm::ONE)
     }
+    fn zero_form(_: &(), form: u8) -> Self {
+        CRep(match form % 4 {
+            0 => ConstMontyForm::ZERO,
+            1 => Default::default(),
+            2 => <ConstMontyForm<M, N> as num_traits::Zero>::zero(),
+            _ => <ConstMontyForm<M, N> as crypto_bigint::ConstZero>::ZERO,
+        })
+    }
     fn bin(kind: Bin, a: &Self, b: &Self, form: u8) -> Self {
         CRep(bin_forms!(kind, &a.0, &b.0, form, ConstMontyForm<M, N>))
     }
@@ -335,6 +359,12 @@ where
     }
     fn one(c: &Self::Ctx) -> Self {
         <MontyForm<N> as Monty>::one(*c)
+    }
+    fn zero_form(c: &Self::Ctx, form: u8) -> Self {
+        if form % 2 == 0 { MontyForm::zero(*c) } else { <MontyForm<N> as Monty>::zero(*c) }
+    }
+    fn one_form(c: &Self::Ctx, form: u8) -> Self {
+        if form % 2 == 0 { MontyForm::one(*c) } else { <MontyForm<N> as Monty>::one(*c) }
     }
     fn bin(kind: Bin, a: &Self, b: &Self, form: u8) -> Self {
         bin_forms!(kind, a, b, form, MontyForm<N>)
@@ -469,6 +499,12 @@ impl Rep for BoxedMontyForm {
     }
     fn one(c: &BCtx) -> Self {
         BoxedMontyForm::one(c.params.clone())
+    }
+    fn zero_form(c: &BCtx, form: u8) -> Self {
+        if form % 2 == 0 { BoxedMontyForm::zero(c.params.clone()) } else { <BoxedMontyForm as Monty>::zero(c.params.clone()) }
+    }
+    fn one_form(c: &BCtx, form: u8) -> Self {
+        if form % 2 == 0 { BoxedMontyForm::one(c.params.clone()) } else { <BoxedMontyForm as Monty>::one(c.params.clone()) }
     }
     fn bin(kind: Bin, a: &Self, b: &Self, form: u8) -> Self {
         bin_forms!(kind, a, b, form, BoxedMontyForm)
@@ -741,16 +777,16 @@ fn run<C: Rep, D: Rep + Monty, B: Rep + Monty>(
                 each!("new", |s| s.regs[*dst] = Rep::new(&s.ctx, &vw));
                 touched.push(*dst);
             }
-            Op::Zero { dst } => {
+            Op::Zero { dst, form } => {
                 opname = "zero".into();
                 model.regs[*dst] = BigUint::zero();
-                each!("zero", |s| s.regs[*dst] = Rep::zero(&s.ctx));
+                each!("zero", |s| s.regs[*dst] = Rep::zero_form(&s.ctx, *form));
                 touched.push(*dst);
             }
-            Op::One { dst } => {
+            Op::One { dst, form } => {
                 opname = "one".into();
                 model.regs[*dst] = BigUint::one() % &model.m;
-                each!("one", |s| s.regs[*dst] = Rep::one(&s.ctx));
+                each!("one", |s| s.regs[*dst] = Rep::one_form(&s.ctx, *form));
                 touched.push(*dst);
             }
             Op::Bin { kind, dst, a, b: bb, form } => {
@@ -1776,8 +1812,8 @@ impl TypedScenario for History {
             let f = r.below(7) as u8;
             ops.push(match r.weighted(&w) {
                 0 => Op::New { dst: reg(&mut r), val: gen_val(&mut r, &mb, limbs) },
-                1 => Op::Zero { dst: reg(&mut r) },
-                2 => Op::One { dst: reg(&mut r) },
+                1 => Op::Zero { dst: reg(&mut r), form: f },
+                2 => Op::One { dst: reg(&mut r), form: f },
                 3 => Op::Bin { kind: Bin::Add, dst: reg(&mut r), a: reg(&mut r), b: reg(&mut r), form: f },
                 4 => Op::Bin { kind: Bin::Sub, dst: reg(&mut r), a: reg(&mut r), b: reg(&mut r), form: f },
                 5 => Op::Bin { kind: Bin::Mul, dst: reg(&mut r), a: reg(&mut r), b: reg(&mut r), form: f },
